@@ -30,6 +30,9 @@ func runC04(c *Ctx) {
 	c02RedoGuard(c, "C04.5")
 	c02RecordDescribes(c, "C04.6")
 	c02FreshLSN(c, "C04.7")
+	c11Allocator(c, "C04.9")
+	ruleStampHasRecord(c, "C04.10")
+	ruleListIterationStable(c, "C04.11")
 	// the log append of a statement is in the same bracket as its page changes (otherwise the timer
 	// flush can write an unlogged change and its LSN to the data file)
 	sub := NewCtx("C04", c.W)
@@ -329,6 +332,34 @@ func c04PageLSN(c *Ctx, rule string) {
 			return true
 		})
 		c.Check(okLSN && okDirty, rule, md.Name+"|sets-lsn-and-dirty", md.Decl.Pos(), "markDirty stores its argument into lastLSN and sets dirty", "markDirty no longer records the LSN and the dirty flag together")
+		// the stamp is the LSN of the LAST change: the store happens on every path through markDirty
+		if okLSN {
+			g := md.Graph()
+			isStamp := func(x ast.Node) bool {
+				hit := false
+				ast.Inspect(x, func(y ast.Node) bool {
+					if as, ok := y.(*ast.AssignStmt); ok && len(as.Lhs) == 1 {
+						if sel, ok := ast.Unparen(as.Lhs[0]).(*ast.SelectorExpr); ok {
+							if v := fieldVar(md, sel); v != nil && v.Name() == "lastLSN" {
+								hit = true
+							}
+						}
+					}
+					return !hit
+				})
+				return hit
+			}
+			skip, _ := g.Forward(nil, nil, func(nn ast.Node, at Loc) Verdict {
+				if isStamp(nn) {
+					return Cut
+				}
+				if _, ok := nn.(*ast.ReturnStmt); ok {
+					return Hit
+				}
+				return Go
+			}, func(b *cfg.Block) Verdict { return Hit })
+			c.Check(!skip, rule, md.Name+"|stamps-on-every-path", md.Decl.Pos(), "every path through markDirty stores the LSN", "markDirty can return without storing the LSN of this change: the page keeps an older LSN although it contains a newer change, and replay re-applies (or, for a page that stopped being the root, mis-orders) records the page already holds")
+		}
 	}
 	if n == 0 {
 		c.Undecided(rule, "subjects", "no store to lastLSN/dirty found")
